@@ -115,3 +115,8 @@ def run(rep):
     rt_common.impl_side(rep, PID, runs, lambda a, d: probe.oracle_burst(d, None if a[2] == 0 else a[2]))
     rep.assumptions += ["channel primitives of std/tokio/async-channel behave as bounded FIFO queues of the stated capacity (Runtime/Actor.v `room`)",
                         "impl blocks inside the documented envelope (no typed self receivers, no cfg attributes on methods)"]
+
+
+def replay(rep, path):
+    import rt_common, probe
+    return rt_common.replay_generic(rep, path, lambda a, d: probe.oracle_burst(d, None if str(a[2]) == '0' else int(a[2])))
